@@ -6,12 +6,18 @@ use std::convert::TryInto;
 
 use crate::feature::Rnum;
 
-#[derive(Eq,PartialEq,PartialOrd)]
+#[derive(Eq,PartialEq)]
 struct Index(u16);
 
 impl Ord for Index {
     fn cmp(&self, other: &Self) -> Ordering {
         self.0.cmp(&other.0).reverse()
+    }
+}
+
+impl PartialOrd for Index {
+    fn partial_cmp(&self, other: &Self) -> Option<Ordering> {
+        Some(self.cmp(other))
     }
 }
 
